@@ -102,7 +102,8 @@ fn check_word(word: &[usize], gens: &[Gen], r: &mut Report) {
         // determinant multiplicative
         let (da, db, dab) = (m.determinant() as f64, b.determinant() as f64, composed.determinant() as f64);
         let had = |m: &D4| (0..3).map(|i| (0..3).map(|j| m[i][j] * m[i][j]).sum::<f64>().sqrt()).product::<f64>();
-        if (dab - da * db).abs() > 1e-4 * (da * db).abs() + 64.0 * f32::EPSILON as f64 * had(&ad) * had(&bd) { r.violation(key("det-multiplicative"), format!("det(AB) = {dab}, det A * det B = {}", da * db), case()); return; }
+        // (a product below f32's normal range underflows to a subnormal or to zero: that is the number format, not the determinant)
+        if (dab - da * db).abs() > 1e-4 * (da * db).abs() + 64.0 * f32::EPSILON as f64 * had(&ad) * had(&bd) + 2.0 * f32::MIN_POSITIVE as f64 { r.violation(key("det-multiplicative"), format!("det(AB) = {dab}, det A * det B = {}", da * db), case()); return; }
         m = composed;
         md = mul(&md, &bd);
     }
@@ -134,7 +135,7 @@ fn check_word(word: &[usize], gens: &[Gen], r: &mut Report) {
     let dref = det3(&mf);
     let had: f64 = (0..3).map(|i| (0..3).map(|j| mf[i][j] * mf[i][j]).sum::<f64>().sqrt()).product();
     r.margin("determinant", ((m.determinant() as f64) - dref).abs(), 1e-5 * dref.abs() + 16.0 * f32::EPSILON as f64 * had);
-    if ((m.determinant() as f64) - dref).abs() > 1e-5 * dref.abs() + 16.0 * f32::EPSILON as f64 * had { r.violation(key("determinant"), format!("determinant() = {}, f64 = {dref}", m.determinant()), case()); return; }
+    if ((m.determinant() as f64) - dref).abs() > 1e-5 * dref.abs() + 16.0 * f32::EPSILON as f64 * had + 2.0 * f32::MIN_POSITIVE as f64 { r.violation(key("determinant"), format!("determinant() = {}, f64 = {dref}", m.determinant()), case()); return; }
     let Some(invd) = inv_affine(&mf) else { r.h("singular-skipped"); return; };
     let cond = fro3(&mf) * fro3(&invd) / 3.0;
     if cond > 1e3 { r.h("cond>1e3-skipped"); return; }
@@ -606,6 +607,16 @@ fn check_first_person(i: u64, r: &mut Report) {
         r.margin("fp-heading-direction", got[0].abs().max(got[1].abs()).max((got[2] - 2.0).abs()), tol);
         if got[0].abs() > tol || got[1].abs() > tol || (got[2] - 2.0).abs() > tol { r.violation(format!("fp-heading-direction|{desc}"), format!("the point 2 units along the requested heading maps to view {got:?}, expected (0,0,2)"), case()); return; }
     }
+    // no roll: the camera's right axis (first row of the rotation) is horizontal and perpendicular to the requested azimuth,
+    // right = up x (cos az, 0, sin az) = (sin az, 0, -cos az) - at every altitude, straight up and down included, where the
+    // azimuth is all that is left to fix the orientation about the view axis
+    if mode == 0 {
+        let az = (fp_az(i) as f64).to_radians();
+        let want = [az.sin(), 0.0, -az.cos()];
+        let e = (0..3).map(|k| (md[0][k] - want[k]).abs()).fold(0.0, f64::max);
+        r.margin("fp-right-axis", e, 1e-4);
+        if e > 1e-4 { let alt = fp.heading.alt().to_degs(); r.violation(format!("fp-right-axis|{}|{desc}", if alt.abs() > 89.5 { "straight-up-down" } else { "general" }), format!("the camera's right axis is {:?}, expected {want:?} (world up x horizontal heading)", [md[0][0], md[0][1], md[0][2]]), case()); return; }
+    }
     // forward direction of the heading maps to +z
     let f = fp.heading.to_cart();
     let fv = m.apply_pt(&pt3::<f32, World>(pos.x() + f.x() * 2.0, pos.y() + f.y() * 2.0, pos.z() + f.z() * 2.0)).0;
@@ -613,12 +624,16 @@ fn check_first_person(i: u64, r: &mut Report) {
     if fv[0].abs() > 3e-5 || fv[1].abs() > 3e-5 || (fv[2] - 2.0).abs() > 3e-5 { r.violation(format!("fp-forward|{desc}"), format!("pos + 2*heading maps to {fv:?}, expected (0,0,2)"), case()); return; }
     // translate: displacement along the camera's horizontal heading (z), right (x) and world up (y)
     let alt = fp.heading.alt().to_degs();
-    if alt.abs() < 89.5 {
+    // (axes: from the view matrix where the heading has a horizontal component; from the requested azimuth - harness-side
+    // trigonometry - for rotate_to headings at any altitude, straight up and down included. Only a look_at straight up or
+    // down leaves the horizontal heading undefined.)
+    if alt.abs() < 89.5 || mode == 0 {
         // camera axes in world space = rows of the rotation part
-        let right = [md[0][0], md[0][1], md[0][2]];
-        let fwd = [md[2][0], md[2][1], md[2][2]];
-        let hl = (fwd[0] * fwd[0] + fwd[2] * fwd[2]).sqrt();
-        let fwd_h = [fwd[0] / hl, 0.0, fwd[2] / hl];
+        let (right, fwd_h) = if alt.abs() < 89.5 {
+            let fwd = [md[2][0], md[2][1], md[2][2]];
+            let hl = (fwd[0] * fwd[0] + fwd[2] * fwd[2]).sqrt();
+            ([md[0][0], md[0][1], md[0][2]], [fwd[0] / hl, 0.0, fwd[2] / hl])
+        } else { let az = (fp_az(i) as f64).to_radians(); ([az.sin(), 0.0, -az.cos()], [az.cos(), 0.0, az.sin()]) };
         for delta in [[1.0f32, 0.0, 0.0], [0.0, 1.0, 0.0], [0.0, 0.0, 1.0], [0.5, -2.0, 3.0]] {
             let mut g = fp;
             g.translate(vec3(delta[0], delta[1], delta[2]));
